@@ -5,6 +5,7 @@
    (harness/drv_threads.cpp under ThreadSanitizer), not proved. *)
 From Coq Require Import String List Bool.
 From BS Require Import InvSpec InvGenerated InvThreads InvStatics.
+From BS Require Import InvPropProofs.
 Import ListNotations.
 
 (* (a) for every schedule that is a fair merge of the per-thread operation lists, every thread ends with the
@@ -43,12 +44,7 @@ Example T_C19_example_two_threads :
   let c : config nat nat nat := fun t => if Nat.leb t 1 then Build_thread (S t) [lift o; lift o] [] else Build_thread 0 [] [] in
   all_readers c /\ fair_merge c [0; 1; 1; 0] /\
   exists c', run_interleaved 3 c [0; 1; 1; 0] = Some (3, c') /\ t_done (c' 0) = [3; 12] /\ t_done (c' 1) = [6; 15].
-Proof.
-  cbv zeta. split; [|split].
-  - intros t o Hin. destruct t as [|[|t]]; cbn in Hin; intuition; subst; apply lift_reader.
-  - intro t. destruct t as [|[|t]]; reflexivity.
-  - eexists. split; [reflexivity|]. split; reflexivity.
-Qed.
+Proof. exact T_C19_example_two_threads_proof. Qed.
 Print Assumptions T_C19_example_two_threads.
 
 (* and necessary: one operation that writes the shared store makes the results depend on the schedule *)
